@@ -139,7 +139,7 @@ fn small_term(lang: LangId, names: &[Name], src: &mut Src) -> Tm {
         LangId::Core => match src.pick(6) {
             0 => Tm::node("c0", vec![]),
             1 if !names.is_empty() => leaf(pickn(src)),
-            2 if names.len() >= 2 => Tm::leaf("f2", &[names[0], names[1]]),
+            2 | 5 if names.len() >= 2 => Tm::leaf("f2", &[names[0], names[1]]),
             3 if !names.is_empty() => Tm::node("w", vec![k(leaf(pickn(src)))]),
             4 if !names.is_empty() => Tm::node("p", vec![k(leaf(pickn(src))), k(Tm::node("c1", vec![]))]),
             _ => Tm::node("c1", vec![]),
@@ -236,6 +236,30 @@ fn decode(lang: LangId, ch: &[u16]) -> Option<PlantCase> {
     // symmetric child: make a two-slot leaf symmetric beforehand (Core only)
     if lang == LangId::Core && src.pick(3) == 0 {
         pre_unions.push((Tm::leaf("f2", &[0, 1]), Tm::leaf("f2", &[1, 0])));
+        // a repeated variable whose occurrences are equal only through that symmetry: the second occurrence of an
+        // f2 leaf in the instance gets its arguments swapped (the matcher has to compare the two occurrences semantically)
+        let subs = planted.subterms();
+        let mut seen: Vec<&Tm> = Vec::new();
+        let mut swap_at: Option<usize> = None;
+        for (i, st) in subs.iter().enumerate() {
+            if st.op == "f2" {
+                if let (Some(Arg::S(a)), Some(Arg::S(b))) = (st.args.first(), st.args.get(1)) {
+                    if a != b && seen.contains(st) {
+                        swap_at = Some(i);
+                        break;
+                    }
+                }
+                seen.push(*st);
+            }
+        }
+        if let Some(i) = swap_at {
+            let st = subs[i].clone();
+            if let (Arg::S(a), Arg::S(b)) = (&st.args[0], &st.args[1]) {
+                let sw = Tm::leaf("f2", &[*b, *a]);
+                // only outside binders that bind one of the two names (then the swap is a plain renaming inside the node)
+                planted = replace_nth(&planted, i, &sw);
+            }
+        }
     }
     let inserted = in_ctx(planted, &mut src);
     let second_rule = if src.pick(3) == 0 {
